@@ -281,6 +281,43 @@ fn w_wake_list_equiv() {
     std::mem::forget(wh);
 }
 
+// ---- a Waker created when the first bitmap (4096 numbers) is full: second bitmap, its own reserved drop slot ----
+// (disabled: filling the slab with 4096 entries did not finish symbolic execution in 40 min)
+// @verif prop=C12,C11,C13 tier=off cfgs= timeout=2400 mem=24 unwind=10 unwindset=w_second_bitmap.*\.0$:4098,Leaf(::|5)drain.*\.0$:3
+// @enc sync::waker::WakeHandlers::{add,wake_list,drop_list,del} sync::waker::Waker::{wake,drop} sync::waker::BitMap::{new,set,drain}
+// @sym none (concrete: the slab is pre-filled with 4096 entries so that the next numbers fall into the second bitmap)
+// @bound one Waker in the second bitmap: add, wake, wake_list, drop, drop_list
+// @assume atomics with real semantics (non-scripted build); sequential Mutex stand-in
+#[kani::proof]
+#[kani::unwind(10)]
+fn w_second_bitmap() {
+    let mut wh = WakeHandlers::new(Box::new(|| ()));
+    wh.slab = Slab::with_capacity(4104);
+    let mut i = 0;
+    while i < 4096 {
+        let k = wh.slab.insert(None);
+        assert!(k == i);
+        i += 1;
+    }
+    let w = wh.add(|_s, _d| {});
+    assert!(w.bit >= BitMap::SIZE && w.bit % BitMap::SIZE != 0, "C12: a Waker was given the reserved drop slot of its bitmap");
+    assert!(w.bitmap.base_index == BitMap::SIZE, "waker must live in the second bitmap");
+    // the reserved slot of the second bitmap holds the drop handler
+    assert!(wh.slab.contains(BitMap::SIZE as usize) && wh.slab.get(BitMap::SIZE as usize).unwrap().is_some(), "C12: second bitmap has no drop handler in its reserved slot");
+    w.wake();
+    let l = wh.wake_list();
+    assert!(l.len() == 1 && l[0] == w.bit, "C11/C13: a wake in the second bitmap is never collected (stranded)");
+    let bit = w.bit;
+    drop(w);
+    let l2 = wh.wake_list();
+    assert!(l2.len() == 1 && l2[0] == BitMap::SIZE, "C12: dropping a Waker of the second bitmap must wake that bitmap's reserved drop slot");
+    let dl = wh.drop_list();
+    assert!(dl.len() == 1 && dl[0] == bit, "C12: drop not recorded");
+    assert!(wh.del(bit).is_some(), "C12: dropped Waker's handler must be removable");
+    assert!(wh.del(BitMap::SIZE).is_none(), "C12: the reserved drop slot must never be deleted");
+    std::mem::forget(wh);
+}
+
 #[cfg(uazu_replay_waker)]
 include!(env!("UAZU_STAKKER_REPLAY_FILE"));
 
